@@ -118,7 +118,7 @@ def run_schema(S, tier, seed, configs, wd, extra_cfg="", machine="view", shapes_
         cfg += emit_cfg + extra_cfg
         d = os.path.join(sdir, "mc-%s-%d" % (machine, mi))
         mc(d, "MC_View", root, body, cfg)
-        r = tlc("MC_View", cwd=d, workers=1 if machine == "view" else 3, xmx="3g", timeout=1500)
+        r = tlc("MC_View", cwd=d, workers=1 if machine == "view" else 3, xmx="3g", timeout=2700)
         return mi, m["name"], len(shapes), r
 
     vectors = []
